@@ -478,6 +478,8 @@ pub fn random_run<W: Write>(tr: &mut Trace<W>, cfg: Cfg, prof: &Profile, seed: u
         let c = rng.pick(&clients).clone();
         let k = *rng.pick(&prof.comps);
         let r = rng.below(100);
+        // relation profiles: a good share of the component operations become relation operations
+        let r = if prof.rel && (21..=40).contains(&r) && rng.chance(2, 5) { 47 } else { r };
         let (ev, args): (&str, Value) = match r {
             0..=7 => {
                 let mut comps = Vec::new();
@@ -516,7 +518,13 @@ pub fn random_run<W: Write>(tr: &mut Trace<W>, cfg: Cfg, prof: &Profile, seed: u
                 ("SetVis", json!({"c": c, "e": e, "v": v}))
             }
             47..=50 if prof.rel => {
-                let p = rng.pick(&ents).clone();
+                let mut p = rng.pick(&ents).clone();
+                for _ in 0..3 {
+                    if sim.op_enabled("Relate", &json!({"e": e, "p": p})) {
+                        break;
+                    }
+                    p = rng.pick(&ents).clone();
+                }
                 if rng.chance(2, 3) { ("Relate", json!({"e": e, "p": p})) } else { ("Unrelate", json!({"e": e})) }
             }
             51..=58 => ("SrvFrame", json!({"tick": false, "dt": if rng.chance(1, 2) { prof.dt } else { 0 }})),
